@@ -35,17 +35,18 @@ const uint8_t PROFILES[][NOPS] = {
     /* C03 churn        */ {4, 1, 1, 5, 3, 3, 5, 2, 1, 0, 0, 0, 0, 1},
     /* C03 resize-heavy */ {8, 1, 2, 5, 2, 2, 3, 1, 2, 0, 0, 0, 0, 1},
     /* C04 enumerate    */ {5, 1, 1, 8, 1, 1, 2, 0, 0, 2, 2, 4, 2, 0},
-    /* C19              */ {6, 1, 1, 7, 5, 0, 3, 1, 0, 1, 0, 0, 0, 0},
+    /* C19              */ {6, 1, 1, 7, 4, 2, 3, 1, 0, 1, 0, 0, 0, 0},
     /* C16              */ {8, 1, 4, 6, 2, 1, 2, 0, 0, 0, 0, 1, 1, 1},
     /* big tables       */ {2, 0, 0, 30, 6, 1, 6, 1, 0, 0, 0, 0, 0, 0},
+    /* big tables, C04  */ {2, 0, 0, 40, 4, 0, 5, 0, 0, 1, 2, 1, 0, 0},
 };
-const int NPROFILES = 8;
+const int NPROFILES = 9;
 const size_t KEYS[] = {1, 2, 3, 4, 8, 16, 64, 1000};
 const size_t MAXLIVE[] = {1000000, 2, 3, 4, 5, 6, 8, 12};
 const size_t SIZES[] = {1, 2, 3, 4, 5, 6, 7, 8, 11, 13, 16, 17, 24, 0, 32, 64};   // 0 = documented no-op
 // the "big tables" profile: bucket counts and element counts in the thousands (index widths, per-op work bounds)
 const size_t BIGSIZES[] = {100, 257, 1000, 1024, 1500, 2048, 3000, 4099, 10000, 20000, 50000, 1025, 2047, 1536, 6000, 333};
-const int PROFILE_BIG = 7;
+const int PROFILE_BIG = 7, PROFILE_BIG_C04 = 8;
 // keys are small indexes pushed through a transform chosen in the header, so that every width of key is exercised
 int g_key_xf;
 bool g_big;
@@ -430,8 +431,12 @@ bool apply(int op, uint8_t a, uint8_t b, uint8_t c, int ntab, size_t K, size_t m
         size_t n = g_big ? BIGSIZES[b % 16] : SIZES[b % 16];
         if (cx.c19 || cx.c17) { if (n == 0) n = 9; }
         int f = c % (F_NULL + 1);
-        if ((cx.c19 || cx.c17) && (f == F_RAWDIV || f == F_RAWMUL)) f -= 2;      // logged variants only
-        if ((cx.c19 || cx.c17) && f == F_NULL && !t.has_buckets) f = F_MUL;      // the default would be unlogged
+        // C19 needs every call logged. C17 delivers its out-of-range value through the logging wrappers, but the table's
+        // CURRENT function may well be a real built-in (or the default) while the misbehaving one is being moved to:
+        // half of the requests keep the raw functions
+        bool keep_raw = cx.c17 && (b & 0x40);
+        if ((cx.c19 || cx.c17) && !keep_raw && (f == F_RAWDIV || f == F_RAWMUL)) f -= 2;      // logged variants only
+        if ((cx.c19 || cx.c17) && !keep_raw && f == F_NULL && !t.has_buckets) f = F_MUL;      // the default would be unlogged
         bool grows_cap = n > t.cap;
         if (was_pending_peek && t.has_buckets) { cx.resize_pending = true; CNT("class.resize.while_pending"); }
         LIB(cstl_hash_resize(&t.h, n, fn_ptr(f)));
@@ -771,7 +776,7 @@ void vf_run(const uint8_t *data, size_t len)
     g_key_xf = (kb / 8) % 8;
     size_t maxlive = MAXLIVE[cur.u8() % 8];
     int prof = cur.u8() % NPROFILES;
-    g_big = prof == PROFILE_BIG;
+    g_big = prof == PROFILE_BIG || prof == PROFILE_BIG_C04;
     if (g_big) { K = 200000; maxlive = 1000000; }
     uint16_t badat = cur.u16();
     g_bad_kind = cur.u8() % 8;
@@ -811,7 +816,7 @@ void vf_run(const uint8_t *data, size_t len)
         // a check only uses the operations whose behaviour its own property governs (attribution):
         // enumeration / clear while a rehash may be pending belong to C04
         bool c04op = op == FOREACH_CONST || op == CLEAR || op == FOREACH_ERASE;
-        if ((c04op && !cx.c04 && !g_prop.empty()) || (cx.c19 && (op == FIND_V || op == SWAP || op == AUDIT_ALL))) {
+        if ((c04op && !cx.c04 && !g_prop.empty()) || (cx.c19 && (op == SWAP || op == AUDIT_ALL))) {
             CNT("noop.foreign_op");
             continue;
         }
@@ -881,13 +886,13 @@ void vf_gen(Rng &r, std::vector<uint8_t> &out)
     out.push_back((uint8_t)(kidx + 8 * r.below(8)));       // key universe + key transform (small, >= 2^32, spread over 64 bits, near SIZE_MAX ...)
     out.push_back(r.chance(5, 6) ? 0 : r.byte());
     // rarely: tables with thousands of buckets and elements
-    bool big = !c04 && !c16 && !c17 && r.chance(1, 20000);
-    out.push_back(big ? (uint8_t)PROFILE_BIG : c04 ? 4 : c19 ? 5 : c16 ? 6 : c17 ? (uint8_t)(r.chance(1, 2) ? 5 : 1 + r.below(4)) : (uint8_t)(1 + r.below(3)));
+    bool big = !c16 && !c17 && r.chance(1, c04 ? 8000 : 20000);
+    out.push_back(big ? (uint8_t)(c04 ? PROFILE_BIG_C04 : PROFILE_BIG) : c04 ? 4 : c19 ? 5 : c16 ? 6 : c17 ? (uint8_t)(r.chance(1, 2) ? 5 : 1 + r.below(4)) : (uint8_t)(1 + r.below(3)));
     uint16_t bad = (uint16_t)(r.chance(1, 2) ? r.below(12) : r.below(120));
     out.push_back((uint8_t)bad);
     out.push_back((uint8_t)(bad >> 8));
     out.push_back(r.byte());
-    size_t n = big ? 4000 + r.below(20000) : c16 ? 6 + r.below(12) : r.chance(1, 2) ? 2 + r.below(30) : r.chance(7, 8) ? 2 + r.below(250) : 2 + r.below(1500);
+    size_t n = big ? (c04 ? 2000 + r.below(5000) : 4000 + r.below(20000)) : c16 ? 6 + r.below(12) : r.chance(1, 2) ? 2 + r.below(30) : r.chance(7, 8) ? 2 + r.below(250) : 2 + r.below(1500);
     // start with a resize so that the table is usable
     out.push_back(RESIZE); out.push_back(0); out.push_back(r.byte()); out.push_back(r.byte());
     for (size_t i = 0; i < n; i++) { out.push_back(r.byte() % 251); out.push_back(r.byte()); out.push_back(r.byte()); out.push_back(r.byte()); }
@@ -905,6 +910,7 @@ bool vf_scope(const std::string &name, Scope &s)
     for (int sz : csv(sizes)) for (int f : csv(funcs)) s.alphabet.push_back({RESIZE, 0, (uint8_t)sz, (uint8_t)f});
     for (size_t k = 0; k < K; k++) s.alphabet.push_back({INS, 0, (uint8_t)k, 0});
     for (size_t k = 0; k < K; k++) s.alphabet.push_back({FIND, 0, (uint8_t)k, 0});
+    if (g_prop == "C19") for (size_t k = 0; k < K && k < 2; k++) { s.alphabet.push_back({FIND_V, 0, (uint8_t)k, 0}); s.alphabet.push_back({FIND_V, 0, (uint8_t)k, 1}); }   // a find with a visitor is a keyed operation too
     for (size_t i = 0; i < MAXLIVE[mi % 8] && i < 6; i++) s.alphabet.push_back({ERASE, 0, (uint8_t)i, 0});
     s.alphabet.push_back({REHASH, 0, 0, 0});
     s.alphabet.push_back({SHRINK, 0, 0, 0});
